@@ -351,24 +351,23 @@ Proof.
   - andbs. apply P_block; [apply core_x_headdecls; assumption|apply (proj1 IHp1); assumption|apply (proj1 IHp2); assumption].
   - (* Func, statement list *)
     apply andb_true_iff in Hc. destruct Hc as [Hc H5]. apply andb_true_iff in Hc. destruct Hc as [Hc H4].
-    apply andb_true_iff in Hc. destruct Hc as [Hc H3]. apply andb_true_iff in Hc. destruct Hc as [H1 H2].
+    apply andb_true_iff in Hc. destruct Hc as [H1 H3].
     destruct (pcore_x_lexvar p1 H1) as [E1 E2].
     apply (P_func nm p1 p2 p3 E1 E2 (core_x_headdecls p2 H3)); [|apply (proj2 IHp1); exact H1|apply (proj1 IHp2); exact H3|apply (proj1 IHp3); exact H4].
     intros g ->. apply negb_true_iff in H5. apply mem_not_in. exact H5.
   - (* Func, parameter list *)
     apply andb_true_iff in Hc. destruct Hc as [Hc H6]. apply andb_true_iff in Hc. destruct Hc as [Hc H5].
-    apply andb_true_iff in Hc. destruct Hc as [Hc H4]. apply andb_true_iff in Hc. destruct Hc as [Hc H3].
-    apply andb_true_iff in Hc. destruct Hc as [H1 H2].
+    apply andb_true_iff in Hc. destruct Hc as [Hc H4]. apply andb_true_iff in Hc. destruct Hc as [H1 H3].
     destruct (pcore_x_lexvar p1 H1) as [E1 E2].
     apply (P_func nm p1 p2 p3 E1 E2 (core_x_headdecls p2 H3)); [|apply (proj2 IHp1); exact H1|apply (proj1 IHp2); exact H3|apply (proj2 IHp3); exact H5].
     intros g ->. apply andb_true_iff in H6. destruct H6 as [H6 _]. apply negb_true_iff in H6. apply mem_not_in. exact H6.
   - (* Arrow, statement list *)
-    apply andb_true_iff in Hc. destruct Hc as [Hc H4]. apply andb_true_iff in Hc. destruct Hc as [Hc H3].
-    apply andb_true_iff in Hc. destruct Hc as [H1 H2]. destruct (pcore_x_lexvar p1 H1) as [E1 E2].
+    apply andb_true_iff in Hc. destruct Hc as [Hc H4]. apply andb_true_iff in Hc. destruct Hc as [H1 H3].
+    destruct (pcore_x_lexvar p1 H1) as [E1 E2].
     apply (P_func None p1 p2 p3 E1 E2 (core_x_headdecls p2 H3)); [discriminate|apply (proj2 IHp1); exact H1|apply (proj1 IHp2); exact H3|apply (proj1 IHp3); exact H4|reflexivity].
   - (* Arrow, parameter list *)
     apply andb_true_iff in Hc. destruct Hc as [Hc H5]. apply andb_true_iff in Hc. destruct Hc as [Hc H4].
-    apply andb_true_iff in Hc. destruct Hc as [Hc H3]. apply andb_true_iff in Hc. destruct Hc as [H1 H2].
+    apply andb_true_iff in Hc. destruct Hc as [H1 H3].
     destruct (pcore_x_lexvar p1 H1) as [E1 E2].
     apply (P_func None p1 p2 p3 E1 E2 (core_x_headdecls p2 H3)); [discriminate|apply (proj2 IHp1); exact H1|apply (proj1 IHp2); exact H3|apply (proj2 IHp3); exact H5|reflexivity].
   - (* For *)
